@@ -171,7 +171,7 @@ def evaluate(it):
     if k == "text":
         try:
             r = parse_cvss_from_text(it[1])
-            return sorted([type(o).__name__, o.vector, list(o.scores())] for o in r)
+            return [[type(o).__name__, o.vector, list(o.scores())] for o in r]       # as returned: the order is output too
         except BaseException as e:  # noqa
             return {"exc": type(e).__name__}
     if k == "interactive":
